@@ -23,7 +23,7 @@ def other_interpreters():
     import sys
 
     seen, out = {sys.version_info[:2]}, []
-    for pth in sorted(glob.glob("/usr/bin/python3.[0-9]*") + glob.glob("/usr/local/bin/python3.[0-9]*")):
+    for pth in sorted(glob.glob("/usr/bin/python3.[0-9]*") + glob.glob("/usr/local/bin/python3.[0-9]*") + glob.glob("/root/.pyenv/versions/3.*/bin/python")):
         if pth.endswith("-config"):
             continue
         try:
@@ -31,10 +31,24 @@ def other_interpreters():
             v = (int(v[0]), int(v[1]))
         except Exception:  # noqa
             continue
-        if v not in seen and v >= (3, 8):
+        if v not in seen and v >= MIN_PYTHON:
             seen.add(v)
-            out.append(pth)
+            out.append((pth, "%d_%d" % v))
     return out
+
+
+def _min_python():
+    """requires-python of the package (pyproject.toml)"""
+    import re
+
+    try:
+        m = re.search(r'requires-python\s*=\s*">=\s*(\d+)\.(\d+)"', open(os.path.join(os.path.dirname(REPO_SRC), "pyproject.toml")).read())
+        return (int(m.group(1)), int(m.group(2)))
+    except Exception:  # noqa
+        return (3, 10)
+
+
+MIN_PYTHON = _min_python()
 
 
 def main(tier, seed, replay=None):
@@ -78,8 +92,15 @@ def main(tier, seed, replay=None):
                     if em == "thread":
                         # every other interpreter version installed here, bare: the shipped source may not need anything that
                         # only SOME versions of the standard library have
-                        for interp in other_interpreters():
-                            configs.append(("python=%s" % os.path.basename(interp), lambda interp=interp: group.makegateway("popen//id=o%s//python=%s -S -E//execmodel=%s" % (os.path.basename(interp).replace(".", "_"), interp, em)), False))
+                        for interp, tag in other_interpreters():
+                            configs.append(("python=python%s" % tag, lambda interp=interp, tag=tag: group.makegateway("popen//id=o%s//python=%s -S -E//execmodel=%s" % (tag, interp, em)), False))
+                            # ... and the stand-alone socket server run by that interpreter
+                            osrv = X.StandaloneServer(REPO_SRC, os.path.join(scratch, "srv%d%s%s" % (rd, em, tag)), [interp, "-S", "-E", "-u"])
+                            servers.append(osrv)
+                            if not osrv.ok():
+                                ck.fail("standalone-socketserver-does-not-start-without-execnet:python" + tag, {"banner": osrv.banner.decode("utf-8", "replace")[-400:], "python": interp})
+                            else:
+                                configs.append(("socket-standalone-python%s" % tag, lambda osrv=osrv, tag=tag: group.makegateway("socket=127.0.0.1:%d//id=sock%s//execmodel=%s" % (osrv.port, tag, em)), False))
                     configs.append(("socket-installvia", lambda: group.makegateway("socket//id=sockvia//installvia=master//execmodel=%s" % em), None))
                     for name, mk, importable in configs:
                         ex = {"config": name, "execmodel": em, "program_seed": ps}
@@ -119,4 +140,4 @@ def main(tier, seed, replay=None):
     finally:
         shutil.rmtree(scratch, ignore_errors=True)
     ck.cov["traces_validated_against_impl"] = ck.cases if hasattr(ck, "cases") else 0
-    return ck.finish(rule="for each remote execution model of the standard library (thread, main_thread_only): workers started from transmitted source on `python -S -E` (execnet not importable, checked remotely) via python=, via=master + python=, a stand-alone copy of script/socketserver.py run by `python -S -E`, and socket//installvia; 15 transcript programs each (Gateway._rinfo, typed echo of generated values, payloads up to 70 kB, remote error, sub-channels both ways, callbacks on both sides, stdout/fd-1 noise, module and function with kwargs, status) compared with the import-bootstrapped popen worker. distinct = (configuration, execmodel, program seed).")
+    return ck.finish(rule="for each remote execution model of the standard library (thread, main_thread_only): workers started from transmitted source on `python -S -E` (execnet not importable, checked remotely) via python=, via=master + python=, a stand-alone copy of script/socketserver.py run by `python -S -E` (also by every other installed CPython 3.10-3.13), and socket//installvia; 15 transcript programs each (Gateway._rinfo, typed echo of generated values, payloads up to 70 kB, remote error, sub-channels both ways, callbacks on both sides, stdout/fd-1 noise, module and function with kwargs, status) compared with the import-bootstrapped popen worker. distinct = (configuration, execmodel, program seed).")
